@@ -20,12 +20,15 @@ def beByte (w v i : Nat) : UInt8 := UInt8.ofNat (v / 256 ^ (w - 1 - i))
 def wr (bs : Bytes) (off w v : Nat) : Bytes :=
   bs.mapIdx (fun i b => if off ≤ i ∧ i < off + w then beByte w v (i - off) else b)
 
+/-- `buf[i]` (0 beyond the end; see `rd`) -/
+def byteAt (bs : Bytes) (i : Nat) : UInt8 := bs.getD i 0
+
 /-- `binary.BigEndian.UintN(buf[off:])` / `buf[off]`: big-endian value of the
     `w` bytes at `off` (missing bytes read as 0; the decoder checks the length
     first, exactly as the Go code must to avoid a panic). -/
 def rd (bs : Bytes) (off : Nat) : Nat → Nat
   | 0 => 0
-  | w + 1 => (bs.getD off 0).toNat * 256 ^ w + rd bs (off + 1) w
+  | w + 1 => (byteAt bs off).toNat * 256 ^ w + rd bs (off + 1) w
 
 /-- a sequence of stores in source order: `(offset, width, value)` -/
 def applyWrites (bs : Bytes) (ws : List (Nat × Nat × Nat)) : Bytes :=
